@@ -147,9 +147,16 @@ func runC03(c *Ctx) {
 			case "x":
 				k.Exec(senders[o.sender], func(p *Puppet) { p.SendExit(rpid, fmt.Errorf("x|%d|%d", o.sender, o.seq)) })
 			case "d":
-				k.Node.Kill(victims[o.victim])
-				// wait until the victim is gone (its down notification is then enqueued)
-				waitUntilGone(k, victims[o.victim])
+				// Kill on a sleeping process unregisters it (and sends the down notification) before it returns; on a
+				// busy one the notification is sent later, by the victim's own goroutine — and could then be
+				// overtaken by the next victim's. The victims are idle: wait until this one is asleep.
+				v := victims[o.victim]
+				waitUntil(2*time.Second, func() bool {
+					pi, err := k.Node.ProcessInfo(v)
+					return err != nil || (pi.State == gen.ProcessStateSleep && pi.MailboxQueues.Main+pi.MailboxQueues.System+pi.MailboxQueues.Urgent == 0)
+				})
+				k.Node.Kill(v)
+				waitUntilGone(k, v)
 			default:
 				if o.sender == ns {
 					k.Node.SendWithPriority(to, pl, prio)
